@@ -19,7 +19,7 @@ Module Names.
 Import Coq.Strings.String.
 (* OBLIGATION *)
 Theorem translated_functions :
-  S.translated = ["Add"; "Clear"; "Contains"; "Difference"; "Empty"; "Intersection"; "New"; "Remove"; "Size"; "Union"; "Values"]%string
+  S.translated = ["Add"; "Clear"; "Contains"; "Difference"; "Empty"; "FromJSON"; "Intersection"; "MarshalJSON"; "New"; "Remove"; "Size"; "ToJSON"; "Union"; "UnmarshalJSON"; "Values"]%string
   /\ S.skipped = ["String"]%string /\ S.not_selected = [].
 Proof. repeat split. Qed.
 Print Assumptions translated_functions.
